@@ -297,14 +297,17 @@ Proof.
   - repeat dif; setters; proj; lia.
 Qed.
 
-Lemma write_chars_INV d str s : INV s -> INV (write_chars d s str).
+Lemma write_chars_INV d str : forall s, INV s -> INV (write_chars d s str).
 Proof.
-  revert s. unfold write_chars. induction str as [|ch t IH]; intros s H; simpl; auto.
-  apply IH. apply write_char_INV; auto.
+  induction str as [|ch t IH]; intros s H; [exact H|].
+  apply (IH (write_char d s ch)). apply write_char_INV. exact H.
 Qed.
 
-Lemma write_spaces_INV n s : INV s -> INV (write_spaces s n).
-Proof. revert s. induction n as [|n IH]; intros s H; simpl; auto. apply IH. apply write_char_INV; auto. Qed.
+Lemma write_spaces_INV n : forall s, INV s -> INV (write_spaces s n).
+Proof.
+  induction n as [|n IH]; intros s H; [exact H|].
+  apply (IH (write_char false s 32)). apply write_char_INV. exact H.
+Qed.
 
 Lemma INV_set_wrap s r b : INV s -> INV (set_wrap s r b).
 Proof. intros [H Hs]. split; [apply GG_set_wrap; auto|]. revert Hs. unf. unfold set_wrap. setters. proj. auto. Qed.
@@ -341,8 +344,11 @@ Proof.
   - apply write_char_INV; auto.
 Qed.
 
-Lemma fold_console_INV str s : INV s -> INV (fold_left console_char str s).
-Proof. revert s. induction str as [|c t IH]; intros s H; simpl; auto. apply IH. apply console_char_INV; auto. Qed.
+Lemma fold_console_INV str : forall s, INV s -> INV (fold_left console_char str s).
+Proof.
+  induction str as [|c t IH]; intros s H; [exact H|].
+  apply (IH (console_char s c)). apply console_char_INV. exact H.
+Qed.
 
 Lemma console_write_INV s str : INV s -> INV (console_write s str).
 Proof.
@@ -361,7 +367,7 @@ Proof. intros H. unfold report_error. repeat apply console_write_INV. apply star
 (* ---- SCRN: file and PRINT *)
 Lemma scrn_loop_INV str : forall s out, INV s -> INV (scrn_loop s out str).
 Proof.
-  induction str as [|c t IH]; intros s out H; simpl.
+  induction str as [|c t IH]; intros s out H; cbn [scrn_loop].
   - apply console_write_INV; auto.
   - destruct (col s >? width s); cbn [fst snd]; dif; apply IH; repeat apply console_write_INV; auto.
 Qed.
@@ -379,7 +385,7 @@ Proof. intros H. unfold print_comma. dif; [apply scrn_write_line_INV | apply scr
 
 Lemma print_items_INV items : forall s nl, INV s -> INV (fst (print_items s items nl)).
 Proof.
-  induction items as [|it t IH]; intros s nl H; simpl; auto.
+  induction items as [|it t IH]; intros s nl H; cbn [print_items fst]; auto.
   destruct it; apply IH; auto. - apply scrn_write_INV; auto. - apply print_comma_INV; auto.
 Qed.
 
@@ -397,15 +403,15 @@ Lemma put_bar_GG n : forall s c l, GG s -> 1 <= c -> c + Z.of_nat n <= width s +
   /\ row (put_bar s c l n) = row s /\ col (put_bar s c l n) = col s /\ barvis (put_bar s c l n) = barvis s
   /\ ovf (put_bar s c l n) = ovf s /\ bra (put_bar s c l n) = bra s.
 Proof.
-  induction n as [|n IH]; intros s c l H Hc Hn; simpl.
-  - repeat split; auto.
-  - destruct l as [|ch t]; [repeat split; auto|].
+  induction n as [|n IH]; intros s c l H Hc Hn.
+  - destruct l; cbn [put_bar]; (split; [exact H | repeat split; reflexivity]).
+  - destruct l as [|ch t]; cbn [put_bar]; [split; [exact H | repeat split; reflexivity]|].
     assert (H1 : GG (b_put s (height s) c ch)).
     { apply GG_put; auto; destruct H as [(?&?&?) _]; lia. }
     destruct (IH (b_put s (height s) c ch) (c + 1) t H1) as (I1&I2&I3&I4&I5&I6&I7&I8&I9&I10&I11);
       [lia | unfold b_put; setters; proj; lia |].
     revert I2 I3 I4 I5 I6 I7 I8 I9 I10 I11. unfold b_put at 2 4 6 8 10 12 14 16 18 20. setters. proj.
-    intros. repeat split; auto.
+    intros. split; [exact I1 | repeat split; assumption].
 Qed.
 
 Lemma redraw_bar_GG s : GG s ->
@@ -540,7 +546,10 @@ Proof.
 Qed.
 
 Lemma run_INV l : forall s, INV s -> INV (run s l).
-Proof. unfold run. induction l as [|x t IH]; intros s H; simpl; auto. apply IH. apply step_INV; auto. Qed.
+Proof.
+  induction l as [|x t IH]; intros s H; [exact H|].
+  apply (IH (step s x)). apply step_INV. exact H.
+Qed.
 
 Lemma init_INV : INV init_st.
 Proof.
